@@ -563,8 +563,15 @@ DoRaw(s, cmd) ==
               Then(DropRun(s, a), LAMBDA t : SelectPart(t, a))
          ELSE IF A.hop # 0 THEN                        \* the hook resumes iff its nested op completes
               IF A.pc = "Run"
-                THEN LET r == PollOp(s, A.hop)
-                     IN  R(r.s, << [e |-> "RunPoll", a |-> a, inst |-> A.inst] >> \o r.evs)
+                THEN LET r  == PollOp(s, A.hop)
+                         r1 == R(r.s, << [e |-> "RunPoll", a |-> a, inst |-> A.inst] >> \o r.evs)
+                         B  == r.s.A[a]
+                     IN  \* a pending operation on the actor itself that gets through in this poll (a message, stop
+                         \* request or kill sent to itself) wakes the actor's own task: the select is polled again
+                         \* in the same burst and the branch before on_run wins (as in NestOp)
+                         IF B.pc = "Run" /\ (B.term \/ Strong(r.s, a) = 0 \/ B.mbox # <<>>)
+                           THEN Then(Then(r1, LAMBDA t : DropRun(t, a)), LAMBDA t : SelectPart(t, a))
+                           ELSE r1
                 ELSE PollOp(s, A.hop)
          ELSE IF cmd.dir # "none" THEN ExitHook(s, a, cmd.dir)
          ELSE IF A.pc = "Run" THEN
